@@ -11,7 +11,7 @@
    kernel: 0 amp nearest, 1 amp linear, 2 noamp nearest, 3 noamp linear, 4 noamp lanczos,
            5 median nearest, 6 median lanczos, 7 huber lanczos.
    output line: for each pixel  re im  (mean kernels)
-                or  re im pred resid (robust kernels; pred = norm of the first-order optimality
+                or  re im pred resid collinear onsample (robust kernels; onsample = 1 when the model's value is a delayed sample; collinear = 1 when the delayed samples have rank <= 1; pred = norm of the first-order optimality
                                      residual evaluated AT THE IMPLEMENTATION'S value on the model's
                                      delayed samples (see below); re = "maxiter"/"noalpha" for an error value)
                 or the single token  none  (the model rejects the request). *)
@@ -97,10 +97,29 @@ let () =
                 let improvement = if Float.is_nan f0 then f0 else f0 -. !best in
                 hex improvement ^ " " ^ hex resid
               end in
+            (* are the delayed samples collinear (rank <= 1)?  then the Hessian of geomed is singular *)
+            let collinear =
+              match samples with
+              | [] -> true
+              | (x0, y0) :: _ ->
+                  let far2 (x, y) = (x -. x0) *. (x -. x0) +. (y -. y0) *. (y -. y0) in
+                  let (dx, dy) = Stdlib.List.fold_left (fun (bx, by) (x, y) ->
+                    if far2 (x, y) > bx *. bx +. by *. by then (x -. x0, y -. y0) else (bx, by)) (0.0, 0.0) samples in
+                  let dn = Float.sqrt (dx *. dx +. dy *. dy) in
+                  let scale = Stdlib.List.fold_left (fun m (x, y) -> Float.max m (Float.max (Float.abs x) (Float.abs y))) 1e-300 samples in
+                  Stdlib.List.for_all (fun (x, y) -> Float.abs ((x -. x0) *. dy -. (y -. y0) *. dx) <= 1e-9 *. scale *. dn) samples in
+            (* does the MODEL's result sit on a delayed sample (the geometric median is a data point)? *)
+            let near =
+              match res with
+              | Robust.ROk (re, im) ->
+                  let scale = Stdlib.List.fold_left (fun m (x, y) -> Float.max m (Float.max (Float.abs x) (Float.abs y))) 1e-300 samples in
+                  Stdlib.List.exists (fun (x, y) -> Float.sqrt ((re -. x) *. (re -. x) +. (im -. y) *. (im -. y)) <= 1e-6 *. scale) samples
+              | _ -> false in
+            let cflag = (if collinear then " 1" else " 0") ^ (if near then " 1" else " 0") in
             match res with
-            | Robust.ROk (re, im) -> hex re ^ " " ^ hex im ^ " " ^ pred
-            | Robust.RMaxIter -> "maxiter 0x0p+0 " ^ pred
-            | Robust.RNoAlpha -> "noalpha 0x0p+0 " ^ pred)
+            | Robust.ROk (re, im) -> hex re ^ " " ^ hex im ^ " " ^ pred ^ cflag
+            | Robust.RMaxIter -> "maxiter 0x0p+0 " ^ pred ^ cflag
+            | Robust.RNoAlpha -> "noalpha 0x0p+0 " ^ pred ^ cflag)
             (Stdlib.List.combine img rows) impl in
           print_endline (String.concat " " outs)
     end)
